@@ -480,7 +480,8 @@ class kLeastAbsErrorsCycles(walkmodel.AbstractWalkModelDiGraph):
 
         # sum of edge errors
         edge_errors = self.get_solution()["edge_errors"]
-        return sum(edge_errors.values())
+        # The objective is the sum of the edge errors, each multiplied by its error scaling factor (if any)
+        return sum(error * self.edge_error_scaling.get(edge, 1) for edge, error in edge_errors.items())
     
     def get_lowerbound_k(self):
 
